@@ -48,12 +48,19 @@ ResMatches(op, m, g) ==
 
 \* silent linearisation step of client c (unlogged): effect as CondWrite.Effect with the
 \* ETag token the call is going to return
+\* "bumped" (logged with the Return): the harness simulated a competing metadata-only writer inside
+\* the window between this call's read and its compare-and-swap (objrepo.cas hook point).  The call
+\* may then fail safe (CondWrite!LinLostCAS) or succeed with its full effect - nothing else.
 TLin(c) == /\ pend[c].st = "invoked" /\ HasRet(c)
            /\ LET r == ResOf(Trace[RetIdx(c)])
-                  e == Effect(reg, pend[c].op, r.etag) IN
-              /\ ResMatches(pend[c].op, e.res, r)
-              /\ reg' = e.reg
-              /\ hist' = Append(hist, [c |-> c, op |-> pend[c].op, res |-> e.res])
+                  e == Effect(reg, pend[c].op, r.etag)
+                  failsafe == [NoRes EXCEPT !.err = LostCASError(pend[c].op)] IN
+              IF Trace[RetIdx(c)].bumped /\ CanLoseCAS(reg, pend[c].op) /\ r.err = failsafe.err /\ ~ResMatches(pend[c].op, e.res, r)
+              THEN /\ reg' = reg
+                   /\ hist' = Append(hist, [c |-> c, op |-> pend[c].op, res |-> failsafe])
+              ELSE /\ ResMatches(pend[c].op, e.res, r)
+                   /\ reg' = e.reg
+                   /\ hist' = Append(hist, [c |-> c, op |-> pend[c].op, res |-> e.res])
            /\ pend' = [pend EXCEPT ![c].st = "lin"]
            /\ l' = l /\ Frame
 
